@@ -470,7 +470,7 @@ func (env *SpecEnv) evalIn(l, r sval) (sval, error) {
 			if _, ok := u.Elem().Underlying().(*types.Struct); ok {
 				return sval{}, fmt.Errorf("'in' on slice of structs")
 			}
-			return sval{t: fmt.Sprintf("(exists ((qi Int)) (and (<= 0 qi) (< qi (slen_ %s)) (= (select %s (selem %s qi)) %s)))", r.t, h, r.t, l.t), sort: "Bool"}, nil
+			return sval{t: fmt.Sprintf("(exists ((qi Int)) (! (and (<= 0 qi) (< qi (slen_ %s)) (= (select %s (selem %s qi)) %s)) :pattern ((selem %s qi))))", r.t, h, r.t, l.t, r.t), sort: "Bool"}, nil
 		case *types.Map:
 			d, _ := mapHeaps(f.ctx, u)
 			return sval{t: fmt.Sprintf("(and (not (= %s nil)) (select (select %s %s) %s))", r.t, f.heap(env.state(), d), r.t, l.t), sort: "Bool"}, nil
